@@ -11,6 +11,7 @@ mod util;
 mod sim;
 mod vbus;
 
+mod eng_c11;
 mod eng_codec;
 mod eng_diag;
 mod eng_dp;
@@ -22,6 +23,7 @@ mod eng_prm;
 mod eng_recover;
 mod eng_ring;
 mod eng_rx;
+mod eng_script;
 
 use util::*;
 
@@ -152,6 +154,7 @@ fn main() {
         "C07" => eng_dp2::c07(&mut ctx),
         "C08" => eng_dp::c08(&mut ctx),
         "C17" => eng_dp2::c17(&mut ctx),
+        "C11" => eng_c11::c11(&mut ctx),
         "C13" => eng_hold::c13(&mut ctx),
         "C14" => eng_dp::c14(&mut ctx),
         "C09" => eng_codec::c09(&mut ctx),
